@@ -2,7 +2,7 @@ SPECIFICATION Spec
 CONSTANTS
   Versions <- VersionsAll
   Family = "ops"
-  ShapeIds <- ShapesAll
+  ShapeIds <- ShapesC03
   VariantIds <- VariantsAll
   MaxOps = 2
   Alphabet <- AlphabetFull
